@@ -3,7 +3,7 @@
 # its demonstration exits 0 on the unchanged tree and 1 on the changed tree) and run the quick check(s) that are said to
 # detect it against a scratch worktree carrying the change.  Writes seeded/MATRIX.txt.  /repo itself is never touched.
 cd /verif
-declare -A OVERRIDE=([C01-c]="C05 C02" [C06-d]="C16" [C10-d]="C02" [C09-b]="C09 C15")
+declare -A OVERRIDE=([C01-c]="C05 C02" [C06-d]="C16" [C10-d]="C02" [C09-b]="C09 C15" [C05-f]="C09")
 out=seeded/MATRIX.txt
 ids="$@"; [ -z "$ids" ] && ids=$(ls seeded | grep '^C[0-9][0-9]-' ) && : > $out
 for id in $ids; do
